@@ -64,6 +64,11 @@ type Plan struct {
 	// password - refused with code 4, and without any effect on what the identifier's
 	// session is.
 	Auth bool `json:"auth,omitempty"`
+	// IDPool > 0: the clients number their requests 1..IDPool over and over (every request of a
+	// sequential plan is complete before the next is sent, so an identifier is free again at
+	// once); 0: identifiers keep increasing. Pipelined bursts, whose exchanges are open at the
+	// same time, take their identifiers from 20000 upwards.
+	IDPool int `json:"id_pool,omitempty"`
 }
 
 // payload builds the message body: the first bytes name the message, the
@@ -138,6 +143,7 @@ type exec struct {
 	inproc      []*inprocSub
 	msgno       int
 	pid         uint16
+	burstPID    uint16
 	disc        []Discrepancy
 	known       func(sig string) bool
 	hits        map[string]int
@@ -160,6 +166,11 @@ func (e *exec) report(class, sig, format string, a ...interface{}) {
 }
 
 func (e *exec) nextPID() uint16 {
+	if e.p.IDPool > 0 {
+		e.pid = e.pid%uint16(e.p.IDPool) + 1
+		e.class("packet-identifiers-reused-at-once")
+		return e.pid
+	}
 	e.pid++
 	if e.pid == 0 {
 		e.pid = 1
@@ -1191,7 +1202,12 @@ func (e *exec) doBurst(op Op) {
 		pl := payload(e.msgno, sz)
 		pp := &codec.Packet{Type: codec.PUBLISH, Topic: []byte(op.Topic), QoS: q, Payload: pl}
 		if q > 0 {
-			pp.PacketID = e.nextPID()
+			if e.p.IDPool > 0 {
+				e.burstPID++
+				pp.PacketID = 20000 + e.burstPID%40000
+			} else {
+				pp.PacketID = e.nextPID()
+			}
 			pids = append(pids, pp.PacketID)
 		}
 		out = append(out, codec.Encode(pp)...)
